@@ -52,3 +52,10 @@ func verifClientEvent(t *clientPeerTracker, kind string, a, b uint64, flag bool,
 func verifClientLoop(t *clientPeerTracker, sessSeqno, cancelMsg, sendMsg, ackMsg uint64) {
 	verifEmit(fmt.Sprintf("ev=txloop tkr=%p epoch=%d cancelmsg=%d sendmsg=%d ackmsg=%d %s", t, sessSeqno, cancelMsg, sendMsg, ackMsg, verifTracker(t)))
 }
+
+// VerifTrackerID returns the identity of the tracker behind the reference, as it appears in the
+// tkr= field of the hook lines (so that a harness running several clients, or one client after
+// another, can tell whose critical section a line reports).
+func (r *ClientPeerRef) VerifTrackerID() string {
+	return fmt.Sprintf("%p", r.tkr)
+}
